@@ -179,6 +179,29 @@ fn run(ctx: &mut Ctx) {
         }
         ctx.count_n("requested_samples values swept", 4096);
     });
+    // ---- slices of 0..=40 bytes cut from / built like a valid packet whose LAST four bytes read as each footer
+    // combination (suppression on / off, keep_bit, keep_last 0 / 34): only the 16-byte form is a short packet
+    ctx.cases("short-lengths", 41, |ctx, len, rng| {
+        let len = len as usize;
+        let a = Adc::simple(rng.pick(&A16_MACS).1, rng.below(32) as u8, content(rng, 3, 70));
+        let long = a.encode();
+        for (sup, kb, kl) in [(true, false, 0u16), (true, true, 34), (false, false, 0), (false, true, 34), (true, true, 0), (true, false, 34)] {
+            let mut x = a.clone();
+            x.suppression = sup;
+            x.keep_bit = kb;
+            x.keep_last = kl;
+            let foot = x.footer();
+            for base in [&long[..len.min(long.len())], &x.encode_short()[..len.min(16)]] {
+                let mut b = base.to_vec();
+                b.resize(len, 0);
+                if len >= 4 {
+                    b[len - 4..].copy_from_slice(&foot);
+                }
+                check(ctx, &b, "short slice ending in a footer");
+                ctx.count("short slices ending in each footer combination");
+            }
+        }
+    });
     // ---- every keep_last 34..=4095 with exactly enough samples, one too few and one more, suppression off (keep_bit set)
     // and on: the 12-bit field is compared at full width and against the right bound everywhere
     ctx.cases("keep-last-sweep", 64, |ctx, part, rng| {
